@@ -37,6 +37,9 @@ type BlockNet struct {
 	files   map[string][]byte
 	// NotFoundFast makes a Get of a block no peer holds fail at once instead of waiting.
 	NotFoundFast bool
+	// FailUnreachable makes a Get of a block that no currently connected peer holds fail at once
+	// (a lookup that finds no provider) instead of waiting for a provider to appear.
+	FailUnreachable bool
 }
 
 func NewBlockNet(n int) *BlockNet {
@@ -84,6 +87,7 @@ func (b *BlockNet) Reset() {
 	b.onPut = nil
 	b.failGet = nil
 	b.NotFoundFast = false
+	b.FailUnreachable = false
 	b.bump()
 	b.mu.Unlock()
 }
@@ -141,6 +145,10 @@ func (b *BlockNet) get(ctx context.Context, p int, c cid.Cid) (ipld.Node, error)
 					return n, nil
 				}
 			}
+		}
+		if b.FailUnreachable {
+			b.mu.Unlock()
+			return nil, ipld.ErrNotFound{Cid: c}
 		}
 		if b.NotFoundFast {
 			// nobody anywhere holds this block: fail like a lookup that found no provider
